@@ -473,10 +473,12 @@ bool splinetable<Alloc>::read_fits_core_impl(fitsfile* fits, const std::string& 
 		//failing to read the file does not
 		if (ext_error != 0 && ext_error != BAD_HDU_NUM)
 			throw std::runtime_error("Error looking for extents in "+filePath+": Error "+std::to_string(ext_error));
-		if (ext_error == BAD_HDU_NUM) {
+		if (ext_error == BAD_HDU_NUM && !fileSize) {
 			//cfitsio reports a failed read while it scans the extensions
 			//in the same way as the end of the file. Make sure that the
 			//last extension it found really is the end of the file.
+			//(Reading from a memory buffer cannot fail in that way, and
+			//scanning it again is not safe: see check_data_present.)
 			int n_hdus = 0, hdu_type, status = 0;
 			LONGLONG headstart = 0, datastart = 0, dataend = 0;
 			//(a second look must come to the same conclusion: cfitsio may
@@ -488,11 +490,8 @@ bool splinetable<Alloc>::read_fits_core_impl(fitsfile* fits, const std::string& 
 			fits_get_num_hdus(fits, &n_hdus, &status);
 			fits_movabs_hdu(fits, n_hdus, &hdu_type, &status);
 			fits_get_hduaddrll(fits, &headstart, &datastart, &dataend, &status);
-			LONGLONG actualSize = fileSize;
-			if (!fileSize) {
-				std::ifstream file(filePath.c_str(), std::ios::binary|std::ios::ate);
-				actualSize = file ? (LONGLONG)file.tellg() : -1;
-			}
+			std::ifstream file(filePath.c_str(), std::ios::binary|std::ios::ate);
+			LONGLONG actualSize = file ? (LONGLONG)file.tellg() : -1;
 			//(anything shorter than one FITS record cannot be an extension)
 			if (status != 0 || actualSize < 0 || actualSize-dataend >= 2880)
 				throw std::runtime_error("Error looking for extents in "+filePath+": could not read all extensions");
